@@ -574,7 +574,7 @@ impl SubCheck for UdpCheck {
         "paths"
     }
     fn rule(&self) -> String {
-        "two real proxies (A in front of B, B with socks / http / quic listeners): every UDP listener {SOCKS5 UDP ASSOCIATE with enforceUdpClient off/on, reverse-UDP, HTTP CONNECT with Proxy-Protocol: udp (RPFM frames inline)} x upstream {direct, socks5->B, http->B inline, QUIC datagrams->B, QUIC inline->B} once paced and once as a burst of six (enumerated), then generated cases of 1-5 concurrent sessions with 1-6 interleaved datagrams each to three tagging echo origins on 127.0.1.1-3, payload sizes from {0, 1, 8, 100, 1199, 1200, 1201, 1472, 4096, 9000, 30000, 65000} or arbitrary in 12..5000 (biased to 1100-1200 and 2250-2350), plus per pairing one paced session sweeping every size in 1120..1164, 2285..2304 and 1465..1474 (fragment boundaries), sessions that vanish while a slow reply is in flight, and burst sessions whose 1-6 datagrams (<= 1472 bytes) are sent back to back (inline: in one write) with the replies judged as a multiset, and hog sessions (HTTP-inline clients that send up to 16 MiB of paced datagrams with a 4 KiB receive buffer and never read a reply, so that their tunnel backs up) next to which the other sessions of the case must work as usual (enumerated once per shared upstream {http->B, quic-datagrams->B, quic-inline->B}, each on a fresh pair of proxies and judged after the flood's backlog has stopped moving); oracle: every datagram (incl. the first of a session and multi-fragment ones) reaches the addressed origin exactly once with identical payload, every reply returns to the owning client labelled with the replying origin's address, no origin ever receives a datagram nobody sent (no phantom after a receive error); non-trivial = >= 2 interleaved sessions, a vanishing client, a burst of >= 2, or a payload above 1200 bytes".into()
+        "two real proxies (A in front of B, B with socks / http / quic listeners): every UDP listener {SOCKS5 UDP ASSOCIATE with enforceUdpClient off/on, reverse-UDP, HTTP CONNECT with Proxy-Protocol: udp (RPFM frames inline)} x upstream {direct, socks5->B, http->B inline, QUIC datagrams->B, QUIC inline->B} once paced and once as a burst of six (enumerated), then generated cases of 1-5 concurrent sessions with 1-6 interleaved datagrams each to three tagging echo origins on 127.0.1.1-3, payload sizes from {0, 1, 8, 100, 1199, 1200, 1201, 1472, 4096, 9000, 30000, 65000} or arbitrary in 12..5000 (biased to 1100-1200 and 2250-2350), plus per pairing one paced session sweeping every size in 1120..1164, 2285..2304 and 1465..1474 (fragment boundaries), sessions that vanish while a slow reply is in flight, and burst sessions whose 1-6 datagrams (<= 1472 bytes) are sent back to back (inline: in one write) with the replies judged as a multiset, and hog sessions (HTTP-inline clients that send up to 16 MiB of paced datagrams with a 4 KiB receive buffer and never read a reply, so that their tunnel backs up) next to which the other sessions of the case must work as usual (enumerated once per shared upstream {http->B, quic-datagrams->B, quic-inline->B}, each on a fresh pair of proxies and judged after the flood's backlog has stopped moving); 105 short sessions one after the other through each shared QUIC upstream (more than its 100 concurrent streams: ended sessions must not hold a stream); oracle: every datagram (incl. the first of a session and multi-fragment ones) reaches the addressed origin exactly once with identical payload, every reply returns to the owning client labelled with the replying origin's address, no origin ever receives a datagram nobody sent (no phantom after a receive error); non-trivial = >= 2 interleaved sessions, a vanishing client, a burst of >= 2, or a payload above 1200 bytes".into()
     }
     fn run(&self, part: &mut Part) {
         let n = part.tier.pick(30, 700) as usize;
@@ -603,13 +603,24 @@ impl SubCheck for UdpCheck {
             });
         }
         cases.extend(part.draw("cases", n, &case_strategy()));
+        if let Ok(k) = std::env::var("VERIF_C10_REPEAT_CONNECTOR") {
+            // diagnosis aid: many sequential single-session cases through one connector on one fixture
+            let cn: u8 = k.parse().unwrap_or(4);
+            cases = (0..260).map(|i| Case { sessions: vec![SessionSpec { listener: (i % 3) as u8, connector: cn, sends: vec![(0, 3), (1, 4)], vanish: false, enforce_client: false, burst: false, hog: false }] }).collect();
+            hog_cases.clear();
+        }
         let rt = tokio::runtime::Builder::new_multi_thread().worker_threads(4).enable_all().build().unwrap();
         let results: Result<Vec<(Case, Result<(bool, serde_json::Value), Failure>)>, String> = rt.block_on(async {
             let fx = fixture().await?;
             let mut out = vec![];
             let mut tag = 1000u32;
-            for c in cases {
+            let slow_diag = std::env::var("VERIF_C10_REPEAT_GAP_MS").ok().and_then(|s| s.parse::<u64>().ok());
+            for (ci, c) in cases.into_iter().enumerate() {
                 let r = run_case(&fx, &c, tag).await;
+                if let Some(ms) = slow_diag {
+                    eprintln!("diag case {} -> {}", ci, if r.is_ok() { "ok".to_string() } else { r.as_ref().err().map(|f| f.key.clone()).unwrap_or_default() });
+                    tokio::time::sleep(Duration::from_millis(ms)).await;
+                }
                 tag += 16;
                 out.push((c, r));
             }
@@ -618,6 +629,28 @@ impl SubCheck for UdpCheck {
                 return Err(format!("a proxy died: A: {} | B: {}", fx.a.log_tail(5), fx.b.log_tail(5)));
             }
             drop(fx);
+            // many short sessions one after the other through a shared QUIC connection (more than its limit of
+            // concurrent streams): every one must open and work - sessions that ended must not hold anything
+            if std::env::var("VERIF_C10_REPEAT_CONNECTOR").is_err() {
+                for cn in [3u8, 4] {
+                    let fx = fixture().await?;
+                    for i in 0..105u32 {
+                        let c = Case { sessions: vec![SessionSpec { listener: if i % 2 == 0 { 0 } else { 2 }, connector: cn, sends: vec![(0, 3)], vanish: false, enforce_client: false, burst: false, hog: false }] };
+                        let r = run_case(&fx, &c, tag).await;
+                        tag += 16;
+                        let failed = r.is_err();
+                        let r = r.map_err(|mut f| {
+                            f.key = format!("after-{}-sequential-sessions:{}", if i >= 100 { "100+" } else if i >= 50 { "50+" } else { "few" }, f.key);
+                            f.desc = format!("session #{} of 105 sequential short sessions through {}: {}", i, CONNECTORS[cn as usize], f.desc);
+                            f
+                        });
+                        out.push((c, r));
+                        if failed {
+                            break;
+                        }
+                    }
+                }
+            }
             // the flooding clients: each on a fresh pair of proxies
             for c in hog_cases {
                 let fx = fixture().await?;
